@@ -40,7 +40,7 @@ def model():
 
         class Y(db.Entity):
             name = orm.Required(str, unique=True)
-            v = orm.Optional(int)
+            v = orm.Optional(int, volatile=True)                 # volatile: not tracked for repeatable reads, but written like any other attribute
             xs = orm.Set(X, reverse='y')
             owner = orm.Optional(X, reverse='owned')
 
@@ -98,7 +98,7 @@ class State(object):
         elif k == 'newt':
             if a[1] in self.t: raise LookupError(a[1])
             self.t.add(a[1])
-        elif k == 'setv':
+        elif k in ('setv', 'setvs'):
             kind, n, val = a[1], a[2], a[3]
             self.need(kind, n); getattr(self, kind)[n]['v'] = None if val == 'None' else int(val)
         elif k == 'sety':
@@ -157,6 +157,7 @@ def apply(M, o):
     elif k == 'newy': Y(name=a[1], owner=gx(a[2]))
     elif k == 'newt': T(name=a[1])
     elif k == 'setv': (gx if a[1] == 'x' else gy)(a[2]).v = None if a[3] == 'None' else int(a[3])
+    elif k == 'setvs': (gx if a[1] == 'x' else gy)(a[2]).set(v=None if a[3] == 'None' else int(a[3]))          # the same change made through Entity.set()
     elif k == 'sety': gx(a[1]).y = gy(a[2])
     elif k == 'setowner': gy(a[1]).owner = gx(a[2])
     elif k == 'setboss': gx(a[1]).boss = gx(a[2])
@@ -172,7 +173,7 @@ def apply(M, o):
     else: raise KeyError(o)
 
 
-OPS = ['newx x1 -', 'newx x1 y0', 'newx x1 y1', 'newy y1 -', 'newy y1 x0', 'newy y1 x1', 'newt t1', 'setv x x0 7', 'setv x x0 None', 'setv x x1 5', 'setv y y0 3', 'setv y y1 4',
+OPS = ['newx x1 -', 'newx x1 y0', 'newx x1 y1', 'newy y1 -', 'newy y1 x0', 'newy y1 x1', 'newt t1', 'setv x x0 7', 'setv x x0 None', 'setv x x1 5', 'setv y y0 3', 'setv y y1 4', 'setvs y y0 6', 'setvs y y1 8', 'setvs x x0 9',
        'sety x0 -', 'sety x0 y1', 'sety x1 y1', 'sety x2 y0', 'setowner y0 x1', 'setowner y0 x2', 'setowner y1 x1', 'setowner y0 -', 'setboss x2 -', 'setboss x0 x2', 'setboss x1 x0',
        'staffadd x0 x1', 'staffadd x2 x0', 'delx x0', 'delx x1', 'delx x2', 'dely y0', 'dely y1', 'delt t0', 'tag t0 x1', 'tag t0 x2', 'tag t1 x0', 'untag t0 x0', 'friend x0 x1', 'friend x1 x2',
        'unfriend x0 x2', 'settags x0 ', 'settags x0 t0,t1', 'settags x2 t0', 'settags x0 t1']
